@@ -658,6 +658,7 @@ type RWMutex struct {
 	mu      realsync.RWMutex
 	writer  bool
 	readers int
+	pending int // writers waiting: like sync.RWMutex, a waiting writer blocks new readers
 }
 
 func (m *RWMutex) Lock() {
@@ -666,7 +667,9 @@ func (m *RWMutex) Lock() {
 		return
 	}
 	verifrt.Point("rwmutex.Lock")
+	m.pending++
 	verifrt.BlockHook("rwmutex.Lock(wait)", func() bool { return m.writer || m.readers > 0 })
+	m.pending--
 	m.writer = true
 }
 
@@ -685,7 +688,7 @@ func (m *RWMutex) RLock() {
 		return
 	}
 	verifrt.Point("rwmutex.RLock")
-	verifrt.BlockHook("rwmutex.RLock(wait)", func() bool { return m.writer })
+	verifrt.BlockHook("rwmutex.RLock(wait)", func() bool { return m.writer || m.pending > 0 })
 	m.readers++
 }
 
